@@ -131,6 +131,8 @@ pub fn build(seed: u64, rec: &mut Recorder) -> World {
         w.must_ix(&ix);
         w.positions.insert(info.name.clone(), info);
     }
+    // X14: the same on P2, whose array before that boundary is a DYNAMIC one
+    open(&mut w, "P2", "U2", -128, 5632, PosKind::Plain, 2_000_000_000);
     // rewards: P1 index 0 (R), 1 (C) and 2 (R again: two reward slots of one pool over the SAME mint), P2 index 0 (R) and
     // 1 (B, the pool's own token A): a vault must be told from another by its address, not by its mint
     for (pool, idx, mint) in [("P1", 0u8, "R"), ("P1", 1, "C"), ("P1", 2, "R"), ("P2", 0, "R"), ("P2", 1, "B")] {
@@ -327,6 +329,22 @@ pub fn probes(w: &World, rec: &mut Recorder, ix: &Ix, cfg: &MatrixCfg, rng_salt:
         }
     }
     if cfg.subst {
+        // a coherent FOREIGN POSITION: position, its token account (and mint) and its owner's signature replaced together by
+        // another position's - the attacker's own, legitimately held position, of this or of another pool
+        if names.contains(&"position".to_string()) && names.contains(&"position_token_account".to_string()) && names.contains(&"position_authority".to_string()) {
+            let cur = ix.key("position");
+            let others: Vec<crate::world::PosInfo> = w.positions.values().filter(|q| q.key != cur && q.bundle.is_none() && w.bank.accts.contains_key(&q.key)).cloned().collect();
+            for q in others {
+                let mut v = ix.clone();
+                v.set_key("position", q.key);
+                v.set_key("position_token_account", q.token_account);
+                v.set_key("position_authority", w.users[&q.owner]);
+                if names.contains(&"position_mint".to_string()) {
+                    v.set_key("position_mint", q.mint);
+                }
+                probe(w, rec, &v, json!({"kind": "subst", "slot": "position+token_account+authority", "orig": w.id(&cur), "with": format!("pos:{}", q.name)}), &[]);
+            }
+        }
         let proj = &w.last_proj;
         let mut rng = rand_chacha::ChaCha8Rng::seed_from_u64(cfg.seed.wrapping_add(rng_salt as u64));
         use rand::SeedableRng;
@@ -467,7 +485,7 @@ pub fn run(cfg: &MatrixCfg, rec: &mut Recorder) {
     let mut n = 0usize;
     let rng_amt = |w: &mut World, lo: u64, hi: u64| -> u64 { w.rng.gen_range(lo..hi) };
     // ---- liquidity, fees, rewards on plain / token-extension / bundled positions
-    for (pos, user, v2) in [("X1", "U1", false), ("X2", "U2", true), ("X6", "U1", true), ("X9", "U1", false), ("X10", "U2", false), ("X10", "U2", true)] {
+    for (pos, user, v2) in [("X1", "U1", false), ("X2", "U2", true), ("X6", "U1", true), ("X9", "U1", false), ("X10", "U2", false), ("X10", "U2", true), ("X14", "U2", false), ("X14", "U2", true)] {
         let a = rng_amt(&mut w, 1_000_000, 9_000_000) as u128;
         { let ix = w.ix_increase(pos, user, a, u64::MAX, u64::MAX, v2); step(&mut w, rec, cfg, &mut n, ix); }
         { let ix = w.ix_decrease(pos, user, a / 2, 0, 0, v2); step(&mut w, rec, cfg, &mut n, ix); }
